@@ -106,6 +106,65 @@ def run(ck, prog, ctx):
             cut = [m for m in chain if m in TRUNCATING_ADAPTORS]
             ck.ob("ROLE", "hpoa/every-line", not cut, "disease_to_hpo::parse looks at %s" % ("every line of phenotype.hpoa (comment and foreign lines are ignored line by line)" if not cut else "the lines that remain after `%s`: a disease row at the top of the file is silently dropped" % ", ".join(cut)), where=pr.where(t.line))
 
+    # ------------------------------------------------------------------ ROLE: the per-line parsers receive lines WITHOUT their terminator
+    pvm = Prov(prog, inline=False)
+    n_ls = 0
+    for fid, what in (("parser::gene_to_hpo::parse", "genes_to_phenotype.txt / phenotype_to_genes.txt"), (D + "parse", "phenotype.hpoa")):
+        fb0 = prog.body(fid)
+        if fb0 is None:
+            continue
+        for bi, t in fb0.calls():
+            is_fn_param = t.callee.trait in ("std::ops::Fn", "std::ops::FnMut", "std::ops::FnOnce") and len(t.args) == 2
+            is_line_parser = bool(re.search(r"::(parse_line|genes_to_phenotype_line|phenotype_to_genes_line)$", t.callee.res or ""))
+            if not (is_fn_param or is_line_parser):
+                continue
+            arg = t.args[1] if is_fn_param else t.args[0]
+            at = pvm.of_operand(fb0, arg, (("f", "0", "tuple"),)) if is_fn_param else pvm.of_operand(fb0, arg)
+            at = at | pvm.of_operand(fb0, arg)
+            names = {a[1].rsplit("::", 1)[-1] for a in at if a[0] in ("call", "mutcall")}
+            # a buffer filled in place: read_line(&mut buf) / read_until(.., &mut buf) on the local the argument refers to
+            walked = set()
+
+            def base_local(op_):
+                cur = op_.place.local if op_.place is not None else None
+                seen_ = set()
+                while cur is not None and cur not in seen_:
+                    seen_.add(cur)
+                    ds_ = pvm.defs(fb0).get(cur, [])
+                    nxt = None
+                    for k_, p_, d_ in ds_:
+                        if k_ == "assign" and d_.rv["k"] == "ref":
+                            nxt = d_.rv["place"].local
+                        elif k_ == "assign" and d_.rv["k"] == "use" and d_.rv["op"].place is not None:
+                            nxt = d_.rv["op"].place.local
+                        elif k_ == "call" and d_.callee.method in ("deref", "as_str", "as_ref", "borrow", "branch", "map_err", "unwrap", "expect", "next", "into_iter", "lines") and d_.args:
+                            walked.add(d_.callee.method)
+                            nxt = d_.args[0].place.local if d_.args[0].place is not None else None
+                    if nxt is None:
+                        return cur
+                    cur = nxt
+                return cur
+            tuple_ops = []
+            if is_fn_param and arg.place is not None:
+                for k_, p_, d_ in pvm.defs(fb0).get(arg.place.local, []):
+                    if k_ == "assign" and d_.rv["k"] == "agg" and d_.rv.get("agg") == "tuple":
+                        tuple_ops = d_.rv["ops"]
+            line_local = base_local(tuple_ops[0] if tuple_ops else arg)
+            names |= walked & {"lines", "next"}
+            for rbi, rt in fb0.calls():
+                if rt.callee.method in ("read_line", "read_until", "read_to_string") and any(base_local(a_) == line_local for a_ in rt.args[1:]):
+                    names.add(rt.callee.method)
+            raw = names & {"read_line", "read_until", "read_to_string", "split", "split_inclusive", "split_terminator"}
+            trims = names & {"trim_end", "trim", "trim_end_matches", "strip_suffix", "trim_matches"}
+            n_ls += 1
+            if "lines" in names and not raw:
+                ck.ob("ROLE", "line-source/%s" % fb0.short, True, "%s hands each line of %s to the line parser as produced by lines() (terminator removed)" % (fb0.short, what), where=fb0.where(t.line))
+            elif raw and not trims:
+                ck.ob("ROLE", "line-source/%s" % fb0.short, False, "%s hands the text read with `%s` to the line parser without removing the line terminator: the last column of a row (gene symbol / HPO id) ends in a newline" % (fb0.short, sorted(raw)[0]), where=fb0.where(t.line))
+            else:
+                ck.undecided("ROLE", "line-source/%s" % fb0.short, "source of the text handed to the line parser not recognised (%s)" % sorted(names)[:6], where=fb0.where(t.line))
+    ck.floor("ROLE", "line parsers fed from files", n_ls, 2)
+
     # ------------------------------------------------------------------ DOM: NOT
     pc = prog.body(D + "parse_disease_components")
     if pc is None:
